@@ -102,6 +102,14 @@ theorem done_pick (s : Sender) (off len : Nat) (hok : s.pickOk off len) (h : Don
     obtain ⟨hall, hfin⟩ := hc
     by_cases hl : len = 0
     · simp [hl] at hfin
+      -- the FIN-only frame repeated although the FIN is acknowledged: colours and `fin_state` are unchanged
+      apply h.2 hd
+      refine ⟨fun x hx => ?_, hfin⟩
+      have := hall x hx
+      subst hl
+      simp only [setRange] at this
+      rw [if_neg (by omega)] at this
+      exact this
     · simp only [hl, if_false] at hrest
       have hx : off < s.written.length := by omega
       have := hall off hx
